@@ -5,12 +5,12 @@ import _harbor
 
 META = dict(
     category="model_checking",
-    technique="explicit TLA+ spec (Harbor/VaultSpec) + TLC trace validation of recorded real-code behaviours and bounded implementation exploration; vault handlers predicted by the spec (conformance)",
-    text='Harbor.tla/VaultSpec.tla specify the vault handlers and the V2 liquidation/auction hand-over; TLC evaluates, on every recorded real state, the custody identity per collateral denom, the vault count, and the per-product collateral / minted / id totals (delta form per step, state form at the root), with vaults awaiting auction counted at the debt handed to the auction. Vault handler steps are additionally predicted exactly by VaultSpec (Conf_Vault).',
-    note="Bounded: 3 users, 4 products (two sharing a collateral denom, one stable-mint), small amounts (TLC 32-bit), decimals 1/10/100, oracle-priced debt; interest amounts are environment values taken from the log; V1 liquidation/auction generation and emergency shutdown are not driven by this family. Trusted: projection functions, TLC, bank module.",
+    technique="explicit TLA+ spec (Harbor/VaultSpec/DutchV1) + TLC trace validation of recorded real-code behaviours and bounded implementation exploration; vault handlers predicted by the spec (conformance)",
+    text='Harbor.tla/VaultSpec.tla specify the vault handlers and the V2 liquidation/auction hand-over; TLC evaluates, on every recorded real state, the custody identity per collateral denom, the vault count, and the per-product collateral / minted / id totals (delta form per step, state form at the root), with vaults awaiting auction counted at the debt handed to the auction (V2) resp. at the locked vault AmountIn / AmountOut (V1, which is what CloseDutchAuction/UpdateProtocolData subtract). The identities are judged on every step of the emergency-shutdown flows as well (redemption set-up, TriggerEsm, V1 shutdown close-out). Vault handler steps are additionally predicted exactly by VaultSpec (Conf_Vault).',
+    note="Bounded: 3 users, 4 products (two sharing a collateral denom, one stable-mint), small amounts (TLC 32-bit), decimals 1/10/100, oracle-priced debt; interest amounts are environment values taken from the log; both liquidation/auction generations are driven (V2 through blocks and messages; V1 - x/liquidation, x/auction - through MsgLiquidateVault / MsgPlaceDutchBid and, because module.go does not wire its begin blockers, through direct calls of the exported BeginBlockers as environment actions V1Sweep / V1Tick); emergency shutdown is driven too (rarely in ordinary runs, headed for in every sixth run, and in a bounded exploration of the shutdown flows: MsgDepositESM / MsgExecuteESM, the esm begin blocker with price snapshot and redemption set-up after the cool-off, MsgCollateralRedemption, withdrawals in the cool-off, V2 TriggerEsm and the V1 shutdown close-out). Trusted: projection functions, TLC, bank module.",
     design_ref='4 C01',
 )
 
 
 def run(c):
-    return _harbor.run(c, ['okVaultOps', 'seizures', 'closingBids'])
+    return _harbor.run(c, ['okVaultOps', 'seizures', 'closingBids', 'v1Seizures', 'v1Closes', 'esmExecuted', 'esmVaultRedemptions', 'esmStableRedemptions', 'esmV2CloseOuts', 'esmV1CloseOuts'])
